@@ -183,6 +183,9 @@ func (ps *pathState) check(extra *smt.Term) (smt.Result, smt.Model) {
 	if ps.modelOK && ps.model.EvalBool(extra) {
 		return smt.Sat, ps.model
 	}
+	if len(ps.pc) == 0 && extra.IsTrue() {
+		return smt.Sat, smt.Model{}
+	}
 	ps.syncSolver()
 	r, m, err := ps.solver.CheckWith(extra, true)
 	if err != nil {
